@@ -12,6 +12,7 @@ The wrapped driver replays every ordinary op word unchanged.  The wrapper adds
 * `quiet`            from here on NOTHING is observed for the rest of the case: the harness still
                      runs the ops and its direct oracles, the model does not replay them
                      (cases whose list-based model would take minutes: 2^20 EINTR bursts, 65536 slices);
+                     ops of such magnitudes switch to `quiet` by themselves (`autoQuiet`);
 * `rep <k> <op> [; <op> …]`   the op(s) k times (iteration i = 0..k-1); in every word `{i}` is
                      replaced by i, `{r}` by k-1-i, `{Ai+B}` / `{Ar+B}` by the affine value, and the tag
                      of a run token `~TTxN` is advanced by i; only the observations of the last
@@ -187,9 +188,43 @@ def repLoop (f : Family) (k : Nat) (ops : List (List String)) : Nat → Nat → 
     let (st', outs, stop) := runOps f i k ops st []
     if stop then (st', outs) else repLoop f k ops n (i + 1) st' outs
 
+/-- `*<k>` factor of a `+`-part / script event, with the token it repeats -/
+def repFactor (p : String) : Option (String × Nat) :=
+  match p.splitOn "*" with
+  | [t, k] => k.toNat?.map (fun k => (t, k))
+  | _ => none
+
+/-- Ops the list-based models cannot replay in reasonable time switch the case to `quiet` BY RULE
+(the harness applies the same rule), so that a shrunk or hand-written replay can never make the
+model run for hours: an `Interrupted` burst of 30000 or more in a `script`; 20000 or more slices /
+iterations in `extendrun` / `newrun` / `rep`; a multi-byte token repeated 30000 times or more in a
+`+` word; a run token of 8 MiB or more. -/
+def autoQuiet (ws : List String) : Bool :=
+  let bigRun (w : String) : Bool :=
+    w.startsWith "~" &&
+      (match (w.drop 1).toString.splitOn "x" with
+       | [_, n] => (match n.toNat? with | some n => decide (n ≥ 8388608) | none => false)
+       | _ => false)
+  let bigPart (w : String) : Bool :=
+    w.contains '+' && (w.splitOn "+").any (fun p =>
+      match repFactor p with
+      | some (t, k) => decide (t.length > 2 ∧ k ≥ 30000)
+      | none => false)
+  (match ws with
+   | ["script", sc] => (sc.splitOn ",").any (fun e =>
+       match repFactor e with
+       | some (t, k) => t.startsWith "x" && decide (k ≥ 30000)
+       | none => false)
+   | ["extendrun", _, k, _] => (match k.toNat? with | some k => decide (k ≥ 20000) | none => false)
+   | ["newrun", k, _] => (match k.toNat? with | some k => decide (k ≥ 20000) | none => false)
+   | "rep" :: k :: _ => (match k.toNat? with | some k => decide (k ≥ 20000) | none => false)
+   | _ => false)
+  || ws.any bigRun || ws.any bigPart
+
 def step (f : Family) (s : f.σ × Flags) (ws : List String) : (f.σ × Flags) × List String :=
   let (st, fl) := s
   if fl.quiet then (s, [])
+  else if autoQuiet ws then ((st, { fl with quiet := true }), ["quiet"])
   else
     match ws with
     | ["terse"] => ((st, { fl with terse := true }), ["ok"])
